@@ -185,6 +185,9 @@ func Replay(base int, evs []Ev) ([]Line, error) {
 			if f == nil {
 				// the model ends a call the implementation had rejected: diverged earlier; record and stop
 				ln.Res = "no-such-call"
+				ln.Snap = r.snap()
+				ln.Hooks, ln.Backoffs = r.drain()
+				ln.Running = running
 				lines = append(lines, ln)
 				return lines, nil
 			}
